@@ -49,11 +49,25 @@ def master_prv(layout='32', testnet=None):
     return prv_node(layout, depth=T.const(0), index=T.const(0), parent=T.NONE, testnet=testnet)
 
 
-def leaves(t, conds=()):
-    """Yield (path conditions, leaf) for every leaf of a Phi tree."""
+def leaves(t, conds=(), _known=None):
+    """Yield (path conditions, leaf) for every feasible leaf of a Phi tree.  A leaf is infeasible when
+    one of its conditions simplifies to False under the conditions before it."""
+    known = set() if _known is None else _known
     if t is not FALL and T.tag(t) == 'phi':
-        yield from leaves(t[2], conds + (t[1],))
-        yield from leaves(t[3], conds + (T.not_(t[1]),))
+        c = T.assume(t[1], known)
+        if c == T.TRUE:
+            yield from leaves(t[2], conds, known)
+            return
+        if c == T.FALSE:
+            yield from leaves(t[3], conds, known)
+            return
+        k1 = set(known)
+        k1.update(_split(c))
+        yield from leaves(t[2], conds + (c,), k1)
+        nc = T.not_(c)
+        k2 = set(known)
+        k2.update(_split(nc))
+        yield from leaves(t[3], conds + (nc,), k2)
     else:
         yield conds, t
 
